@@ -232,3 +232,17 @@ Theorem load_float_monotone : forall b b' def,
   (B2R 53 1024 (Acme.C17.FloatBound.load_float b def) <= B2R 53 1024 (Acme.C17.FloatBound.load_float b' def))%R.
 Proof. exact Acme.C17.FloatBound.load_float_monotone_lemma. Qed.
 Print Assumptions load_float_monotone.
+
+(* the float64 Percentage of every message is finite and within 2 (n+5) 2^-53 (relative) of its
+   exact share bps / total * 100 (which is e_pct of its entry by entries_spec); for n >= 2 this is
+   below the n 2^-50 used by the correspondence check (for n = 1 the float64 share is exactly 100) *)
+Theorem pct_float_close : forall b def m,
+  Acme.C17.FloatBound.float_domain b def -> In m (bus_msgs b) ->
+  let share := Q2R (bps (b_typ b) def m / qsum (map (bps (b_typ b) def) (bus_msgs b)) * inject_Z 100) in
+  is_finite 53 1024 (Acme.C17.FloatBound.pct_float b def m) = true
+  /\ (Rabs (B2R 53 1024 (Acme.C17.FloatBound.pct_float b def m) - share)
+      <= 2 * INR (length (bus_msgs b) + 5) * Acme.C17.FloatBound.u * share)%R
+  /\ ((2 <= length (bus_msgs b))%nat ->
+      (2 * INR (length (bus_msgs b) + 5) * Acme.C17.FloatBound.u <= INR (length (bus_msgs b)) * bpow radix2 (-50))%R).
+Proof. exact Acme.C17.FloatBound.pct_float_close_lemma. Qed.
+Print Assumptions pct_float_close.
